@@ -50,21 +50,19 @@ theorem decode_encode_prefix (hwf : WF S = true) {ty : String} {v : Val} {b : By
   (roundtrip hwf henc hadm).2 tail
 
 /-- Decoding through the factory of the family (`a`: transaction, embedded transaction, block, receipt)
-    returns the same concrete object as decoding with the concrete type `c`. -/
+    returns the same concrete object as decoding with the concrete type `c` (admissibility at the factory
+    type: the object carries the discriminator values of its class). -/
 theorem factory_agrees (hwf : WF S = true) {a c : String} {da dc : StructDef}
     (hfa : S.find a = some (.struct da)) (hab : da.abstract = true) (hchild : (c, dc) ∈ S.children a)
     {n : Nat} {v : Val} {b : Bytes}
-    (henc : (recN S T n).enc c v = .ok b) (hadm : admN S T n c v = true) (tail : Bytes) :
+    (henc : (recN S T n).enc c v = .ok b) (hadm : admN S T n a v = true) (tail : Bytes) :
     (recN S T n).dec a (b ++ tail) = .ok v ∧ (recN S T n).dec c (b ++ tail) = .ok v := by
-  refine ⟨?_, (roundtrip hwf henc hadm).2 tail⟩
   cases n with
   | zero => cases henc
   | succ k =>
     obtain ⟨hea, hok⟩ := child_at_factory hwf hfa hab hchild (recN S T k) (v := v) (b := b) henc
-    have hadm' : admN S T (k + 1) a v = true := by
-      show okStep S (recN S T k) (admN S T k) a v = true
-      rw [hok]; exact hadm
-    exact (roundtrip hwf (n := k + 1) hea hadm').2 tail
+    have hadmc : admN S T (k + 1) c v = true := hok (admN S T k) hadm
+    exact ⟨(roundtrip hwf (n := k + 1) hea hadm).2 tail, (roundtrip hwf henc hadmc).2 tail⟩
 
 /-! ### the shipped schemas -/
 
